@@ -24,7 +24,7 @@ class AV:
         if len(fn.params) < 4:
             raise AnalysisError("_anonymize_value signature changed: %s" % fn.params)
         self.raw, self.lookup, self.reserved, self.salt = [("param", x) for x in fn.params[:4]]
-        g = ("global", fn.module.name, self.f_ext.name)
+        g = ("global", self.f_ext.module.name, self.f_ext.name)
         self.EXT = ("call", g, (self.raw,), ())
         self.HEAD = ("sub", self.EXT, ("const", 0))
         self.V = ("sub", self.EXT, ("const", 1))
@@ -38,7 +38,7 @@ class AV:
         except Exception:
             self.MAGIC = ("global", JSM, "MAGIC")
         self.DEC = ("call", self.f_decrypt, (self.V,), ())
-        self.FMT = ("call", ("global", fn.module.name, self.f_fmt.name), (self.V,), ())
+        self.FMT = ("call", ("global", self.f_fmt.module.name, self.f_fmt.name), (self.V,), ())
         self.BASE_fmt = "netconanRemoved{}"
         self.BASE = M.fstr(self.BASE_fmt.replace("{}", ""), ("call", ("builtin", "len"), (self.lookup,), ()))
         self.js = js
@@ -97,12 +97,16 @@ def encoder_ok(av, klass, anon):
     hexb = ("call", ("global", av.fn.module.name, "b2a_hex"), (enc,), ())
     if klass == "text":
         return anon == B, "the numbered plain pseudonym"
+    from .flow import canon_ext
+    prog = av.ctx.p
+    hexb = ("call", ("ext", "binascii.b2a_hex"), (enc,), ())
+    hexb2 = ("call", ("ext", "binascii.hexlify"), (enc,), ())  # the same function under its other name
     if klass == "numeric":
-        want = ("call", ("builtin", "str"), (("call", ("builtin", "int"), (hexb, ("const", 16)), ()),), ())
-        return anon == want, "str(int(b2a_hex(pseudonym.encode()), 16)) — all digits"
+        wants = [("call", ("builtin", "str"), (("call", ("builtin", "int"), (h, ("const", 16)), ()),), ()) for h in (hexb, hexb2)]
+        return canon_ext(prog, anon) in wants, "str(int(b2a_hex(pseudonym.encode()), 16)) — all digits"
     if klass == "hexadecimal":
-        want = ("call", ("attr", hexb, "decode"), (), ())
-        return anon == want, "b2a_hex(pseudonym.encode()).decode() — all hex digits, injective"
+        wants = [("call", ("attr", h, "decode"), (), ()) for h in (hexb, hexb2)]
+        return canon_ext(prog, anon) in wants, "b2a_hex(pseudonym.encode()).decode() — all hex digits, injective"
     if klass == "cisco_type7":
         h = _hash_call(anon, "cisco_type7")
         ok = h is not None and h[1] == B and set(h[0]) == {"salt"} and h[0]["salt"][0] == "const" and isinstance(h[0]["salt"][1], int) and 0 <= h[0]["salt"][1] <= 15
